@@ -387,6 +387,15 @@ pub fn compare_frontier(expected: &[Expected], trace: &Trace) -> (Vec<String>, u
 }
 
 /// For every consumer replica of `block`: the arrivals in the order its thread received them.
+/// The largest batch the mode allows on a link.
+pub fn batch_cap(b: BatchMode) -> usize {
+    match b {
+        BatchMode::Single => 1,
+        BatchMode::Fixed(n) => n.get(),
+        BatchMode::Adaptive(n, _) => n.get(),
+    }
+}
+
 pub fn arrivals_of(log: &crate::obs::JobLog, block: u64) -> BTreeMap<C3, Vec<(C3, u8, i64)>> {
     let mut m: BTreeMap<C3, Vec<(C3, u8, i64)>> = BTreeMap::new();
     for (_, evs) in &log.link_events {
@@ -525,6 +534,28 @@ pub fn run_c17(args: &Args, report: &mut Report) {
             incr.0 += inc.0;
             incr.1 += inc.1;
         }
+        // between End and Start a watermark waits at most for the rest of its batch: no batch
+        // may hold more elements than the batch mode allows (a watermark riding in a batch that
+        // is never cut is withheld from the consumer's frontier)
+        let cap = batch_cap(batch);
+        let mut batches = 0u64;
+        for (_, evs) in &res.log.link_events {
+            for ev in evs {
+                if let LinkEv::Send { from, to, elems, .. } = ev {
+                    let wms = elems.iter().filter(|e| e.kind == crate::probe::K_WM).count();
+                    if wms == 0 {
+                        // (the loop leader and feedback paths send their own small batches of
+                        // control elements without a batcher; they carry no watermark)
+                        continue;
+                    }
+                    batches += 1;
+                    if elems.len() > cap {
+                        errs.push(format!("replica {from:?} sent a batch of {} elements ({wms} watermarks) to {to:?} although the batch mode {batch:?} cuts batches at {cap}: its watermarks were withheld from the consumer", elems.len()));
+                    }
+                }
+            }
+        }
+        report.count("watermark_carrying_batches_checked_against_batch_capacity", batches);
         report.count("frontier_jobs", 1);
         report.count("consumer_replicas_checked", all.len() as u64);
         report.count("frontier_increases_by_watermark_arrival", incr.0);
